@@ -78,10 +78,19 @@ class PhaseB:
         self.array_attrs = attrs(self.fcls)
         self.array_only = self.array_attrs - attrs(bb) - attrs(bv)
         self.cache = {}
+        self.tcache = {}
         self.memo = {}
         self.violations = {}  # key -> (f, use, chain, why)
         self.ok_uses = {}
         self.visited_calls = 0
+
+    def facts_with_tables(self, f, tables):
+        key = (f, frozenset(tables))
+        if key not in self.tcache:
+            base = self.facts(f)
+            facts = self._facts(f, set(getattr(base, "forced_used", ())), tables=set(tables))
+            self.tcache[key] = facts
+        return self.tcache[key]
 
     def facts(self, f, _depth=0):
         if f in self.cache:
@@ -115,10 +124,11 @@ class PhaseB:
             del self.cache[f]
         return self.cache[f]
 
-    def _facts(self, f, forced):
+    def _facts(self, f, forced, tables=()):
         if True:
             pa = PhaseA(self.prog, f, self.array_only, self.array_attrs)
             pa.forced = set(forced)
+            pa.forced_tables = set(tables)
             pa.copies = {}
             pa.block_alias = {}
             # record copies: Y = X / X.copy() / X if c else X.copy()
@@ -137,6 +147,8 @@ class PhaseB:
             facts.copies = dict(pa.copies)
             facts.libfn = dict(pa.libfn)
             facts.pa = pa
+            facts.forced_used = set(forced)
+            facts.callable_alias = dict(pa.callable_alias)
             return facts
 
     def root(self, facts, var):
@@ -203,8 +215,9 @@ class PhaseB:
         if key in self.memo:
             return self.memo[key]
         self.memo[key] = []  # recursion guard
-        facts = self.facts(f)
-        params = set(f.all_params())
+        table_params = {p[7:-1] for p in lazy if p.startswith("<table ")}
+        facts = self.facts_with_tables(f, table_params) if table_params else self.facts(f)
+        params = set(f.all_params()) | {f"<table {p}>" for p in table_params}
         pending = []  # callbacks to be judged by the caller: (param name, use)
         qual = f.qualname
         for u in facts.uses:
@@ -214,6 +227,12 @@ class PhaseB:
             self.judge(f, u, r, chain, pending)
         for call in facts.calls:
             cands = self.resolve(f, call)
+            if not [g for g in cands if g is not None] and call.get("tables"):
+                for (pos, var, st) in call["tables"]:
+                    r = self.root(facts, var) if var else None
+                    if st == "L" and not (r in params and r in facts.tracked and r not in lazy):
+                        self.violation(f, Use_("RAW", call["node"]), chain,
+                                       f"block table of possibly-lazy `{var}` passed to a function the analysis cannot resolve")
             for g in cands:
                 if g is None or g.parent is not None:
                     continue
@@ -236,6 +255,18 @@ class PhaseB:
                         # not made lazy in between (state tracking inside f is per variable)
                         if facts.pa.state.get(call["recv"], "L") == "S" or call["recv_state"] == "S":
                             lz.discard(g.params()[0])
+                # block tables handed over as plain dict arguments
+                gp = g.params()
+                off = 1 if (call["method"] is not None and g.cls is not None and not g.is_static) else 0
+                for (pos, var, st) in call.get("tables", ()):
+                    r = self.root(facts, var) if var else None
+                    if r in params and r in facts.tracked and r not in lazy:
+                        continue
+                    if st != "L":
+                        continue
+                    target = gp[pos + off] if isinstance(pos, int) and pos + off < len(gp) else (pos if isinstance(pos, str) else None)
+                    if target is not None:
+                        lz.add(f"<table {target}>")
                 if not lz:
                     continue
                 self.visited_calls += 1
@@ -268,8 +299,15 @@ class PhaseB:
         if u.kind == "CALL":
             return
         if u.kind == "CALLBACK":
+            alias = getattr(self.cache.get(f), "callable_alias", {}) or {}
             if u.extra in f.all_params():
                 pending.append((u.extra, u))
+            elif u.extra in alias:
+                # local alias of callable parameter(s) / the identity
+                for p_ in alias[u.extra]:
+                    pending.append((p_, u))
+                if not alias[u.extra]:
+                    self.okuse(f, u, "identity map")
             else:
                 self.violation(f, u, chain, "block value handed to an unknown callable")
             return
@@ -353,15 +391,18 @@ class PhaseB:
                     and isinstance(n.targets[0].value, ast.Name) and src(n.targets[0].slice) == key:
                 left_dicts.add(n.targets[0].value.id)
         ok = False
+        n_cw = 0
         for n in walk_own(f.node):
             if isinstance(n, ast.Call) and src(n.func) == f"{x}.copy_with":
+                n_cw += 1
                 kws = {k.arg: k.value for k in n.keywords}
                 if "phases" in kws:
                     return False
                 b = kws.get("blocks")
                 if isinstance(b, ast.Name) and b.id in left_dicts:
                     ok = True
-        return ok
+        # exactly one factor may inherit the operand's sign table (copy_with copies it): the left one
+        return ok and n_cw == 1
 
 
 class Use_:
@@ -455,80 +496,121 @@ def entries(prog):
 
 
 def check_mirrors(prog, ctx):
-    """R09.2: the re-keying functions are mirrored on the sign table."""
+    """R09.2: every re-keying of the block table is mirrored on the sign table.  Decided by abstract evaluation of the
+    re-keying methods on token arrays (keys, sign tables and charges concrete; block contents opaque): after the call
+    the sign table must name exactly the images of the sectors it named before, with the signs the Koszul rule gives."""
+    import itertools
+
+    from engine.absarray import Tok, evaluator, make_array
+    from engine.minieval import Raised, Unsupported
+
     rid = "R09.2"
-    f = prog.func("symmray.fermionic_core:FermionicArray.transpose")
-    # every dict that reaches modify(phases=...) is keyed by permuted(sector, axes); the physical
-    # transpose is then called with the same `axes`
-    mods = [n for n in walk_own(f.node) if isinstance(n, ast.Call) and isinstance(n.func, ast.Attribute)
-            and n.func.attr == "modify" and any(k.arg == "phases" for k in n.keywords)]
-    ctx.need(len(mods) == 1, "FermionicArray.transpose: expected one modify(phases=...)")
-    pvar = [k.value for k in mods[0].keywords if k.arg == "phases"][0]
-    ctx.need(isinstance(pvar, ast.Name), "FermionicArray.transpose: phases= is not a local dict variable")
-    keyexprs = []
-    for n in walk_own(f.node):
-        if isinstance(n, ast.Assign):
-            for t in n.targets:
-                if isinstance(t, ast.Subscript) and isinstance(t.value, ast.Name) and t.value.id == pvar.id:
-                    keyexprs.append((src(t.slice), n))
-                if isinstance(t, ast.Name) and t.id == pvar.id and isinstance(n.value, ast.DictComp):
-                    keyexprs.append((src(n.value.key), n))
-    phys = [n for n in walk_own(f.node) if isinstance(n, ast.Call) and src(n.func) == "AbelianArray.transpose"]
-    ctx.need(len(phys) == 1 and len(phys[0].args) >= 2, "FermionicArray.transpose: physical transpose call not found")
-    axes = src(phys[0].args[1])
-    ctx.need(len(keyexprs) >= 2, "FermionicArray.transpose: sign-table key constructions not found")
-    for (k, n) in keyexprs:
-        ctx.check(k == f"permuted(sector, {axes})", rid, f, n, src(n),
-                  f"sign table re-keyed with permuted(sector, {axes}), the permutation given to the physical transpose")
-    # the blocks are re-keyed with the same function in AbelianArray.transpose
-    g = prog.func("symmray.abelian_core:AbelianArray.transpose")
-    dcs = [n for n in walk_own(g.node) if isinstance(n, ast.DictComp)]
-    ctx.need(len(dcs) == 1, "AbelianArray.transpose: block dict comprehension not found")
-    ctx.check(src(dcs[0].key) == "permuted(sector, axes)", rid, g, dcs[0], src(dcs[0].key),
-              "blocks re-keyed with permuted(sector, axes)")
-    # axes must not be rebound between the sign table construction and the physical transpose
-    # (the None -> reversed default is resolved before both)
-    first_use = min(n.lineno for (_, n) in keyexprs)
-    rebinds = [n for n in walk_own(f.node) if isinstance(n, ast.Assign)
-               and any(isinstance(t, ast.Name) and t.id == axes for t in n.targets)]
-    ctx.check(all(n.lineno < first_use for n in rebinds), rid, f, f.node, "axes rebound",
-              "`axes` is only (re)bound before the sign table is built")
+    fcls = prog.cls(CTX)
+    koszul = prog.func("symmray.symmetries:calc_phase_permutation")
+    sectors2 = [(0, 0), (0, 1), (1, 0), (1, 1)]
+    sectors3 = [s_ for s_ in itertools.product((0, 1), repeat=3)]
 
-    # _map_blocks
-    fm = prog.func("symmray.fermionic_core:FermionicArray._map_blocks")
-    bm = prog.func("symmray.block_core:BlockBase._map_blocks")
-    sup = [n for n in walk_own(fm.node) if isinstance(n, ast.Call) and src(n.func) == "super()._map_blocks"]
-    ctx.check(len(sup) == 1 and [src(a) for a in sup[0].args] == ["fn_block", "fn_sector"], rid, fm, fm.node,
-              "super()._map_blocks(fn_block, fn_sector)", "override forwards both maps to the block-level re-keying")
-    dcs = [n for n in walk_own(fm.node) if isinstance(n, ast.DictComp)]
-    ok = (len(dcs) == 1 and src(dcs[0].key).startswith("fn_sector(") and
-          src(dcs[0].generators[0].iter) in ("self._phases.items()", "self.phases.items()")
-          and src(dcs[0].key) == f"fn_sector({src(dcs[0].generators[0].target.elts[0])})")
-    ctx.check(ok, rid, fm, fm.node, "phases re-key", "sign table re-keyed with the same fn_sector as the blocks")
-    guard = [n for n in walk_own(fm.node) if isinstance(n, ast.If) and src(n.test) == "fn_sector is not None"]
-    ctx.check(len(guard) == 1, rid, fm, fm.node, "guard", "sign table re-keyed whenever a sector map is given")
-    dcs = [n for n in walk_own(bm.node) if isinstance(n, ast.DictComp)]
-    ctx.check(len(dcs) == 1 and src(dcs[0].key) == "fn_sector(sector)", rid, bm, bm.node, "block re-key",
-              "blocks re-keyed with fn_sector(sector)")
+    def run(method, arr, args=(), kwargs=None):
+        ev = evaluator(prog)
+        m = prog.lookup_method(fcls, method)
+        if m is None:
+            raise AnalysisError(f"FermionicArray.{method} vanished")
+        try:
+            return ev.call(m, list(args), dict(kwargs or {}), self_obj=arr), ev
+        except Unsupported as e:
+            raise AnalysisError(f"FermionicArray.{method} outside the evaluable sub-language: {e}")
 
-    # dagger
-    fd = prog.func("symmray.fermionic_core:FermionicArray.dagger")
-    stores = {}
-    for n in walk_own(fd.node):
-        if isinstance(n, ast.Assign) and len(n.targets) == 1 and isinstance(n.targets[0], ast.Subscript) \
-                and isinstance(n.targets[0].value, ast.Name):
-            stores.setdefault(n.targets[0].value.id, []).append(src(n.targets[0].slice))
-    mods = [n for n in walk_own(fd.node) if isinstance(n, ast.Call) and isinstance(n.func, ast.Attribute)
-            and n.func.attr == "modify"]
-    ok = False
-    for mnode in mods:
-        kws = {k.arg: src(k.value) for k in mnode.keywords}
-        b, p = kws.get("blocks"), kws.get("phases")
-        if b in stores and p in stores and set(stores[b]) == set(stores[p]) and len(set(stores[b])) == 1:
-            ok = True
-    ctx.check(ok, rid, fd, fd.node, "dagger re-key", "dagger stores blocks and pending signs under the same new key "
-              "and installs both in one modify()")
-    ctx.minimum(rid, 8, "transpose (3+), _map_blocks (4), dagger (1)")
+    # --- _map_blocks: sector map mirrored, block map leaves the table alone
+    bad = None
+    n = 0
+    for lazy in itertools.chain.from_iterable(itertools.combinations(sectors2, r) for r in range(0, 3)):
+        for inplace_dummy in (0,):
+            x = make_array(prog, sectors2, (False, True), fermionic=True, phases={s_: -1 for s_ in lazy})
+            fs = lambda sec: tuple(reversed(sec)) + ("z",)  # noqa: E731
+            try:
+                run("_map_blocks", x, kwargs={"fn_sector": fs})
+            except Raised as e:
+                bad = bad or f"_map_blocks raised {e.what}"
+                continue
+            n += 1
+            want_b = {fs(s_) for s_ in sectors2}
+            want_p = {fs(s_): -1 for s_ in lazy}
+            if set(x.fields["_blocks"]) != want_b or x.fields["_phases"] != want_p:
+                bad = bad or (f"pending signs on {lazy}: after re-keying blocks are {sorted(x.fields['_blocks'])}, "
+                              f"sign table is {x.fields['_phases']} (want {want_p})")
+            y = make_array(prog, sectors2, (False, True), fermionic=True, phases={s_: -1 for s_ in lazy})
+            run("_map_blocks", y, kwargs={"fn_block": lambda b: b})
+            if y.fields["_phases"] != {s_: -1 for s_ in lazy} or set(y.fields["_blocks"]) != set(sectors2):
+                bad = bad or "a pure block map changed keys or the sign table"
+    f = prog.lookup_method(fcls, "_map_blocks")
+    ctx.check(bad is None, rid, f, f.node, "_map_blocks mirror",
+              f"_map_blocks re-keys the sign table with the same sector map as the blocks ({n} sign tables evaluated)"
+              + ("" if bad is None else f" — witness: {bad}"))
+
+    # --- transpose: keys permuted alike; signs follow the Koszul rule for the same permutation
+    bad = None
+    n = 0
+    evk = evaluator(prog)
+    for perm in itertools.permutations(range(3)):
+        for lazy in ((), ((0, 1, 1),), ((1, 1, 0), (1, 0, 1)), tuple(sectors3)):
+            for phase in (True, False):
+                x = make_array(prog, sectors3, (False, True, False), fermionic=True, phases={s_: -1 for s_ in lazy})
+                try:
+                    res, _ = run("transpose", x, args=(perm,), kwargs={"phase": phase})
+                except Raised as e:
+                    bad = bad or f"transpose raised {e.what}"
+                    continue
+                n += 1
+                pm = lambda sec: tuple(sec[p_] for p_ in perm)  # noqa: E731
+                want_b = {pm(s_) for s_ in sectors3}
+                want_p = {}
+                for s_ in sectors3:
+                    sign = -1 if s_ in lazy else 1
+                    if phase:
+                        evk.steps = 0
+                        sign *= evk.call(koszul, [tuple(c % 2 for c in s_), tuple(perm)])
+                    if sign == -1:
+                        want_p[pm(s_)] = -1
+                got_b, got_p = set(res.fields["_blocks"]), {k: v for k, v in res.fields["_phases"].items() if v == -1}
+                if got_b != want_b or got_p != want_p:
+                    bad = bad or (f"perm={perm} phase={phase} pending={lazy}: sign table {got_p} != {want_p}"
+                                  if got_b == want_b else f"perm={perm}: block keys {sorted(got_b)} != {sorted(want_b)}")
+                if set(x.fields["_blocks"]) != set(sectors3) or x.fields["_phases"] != {s_: -1 for s_ in lazy}:
+                    bad = bad or "out-of-place transpose changed its operand"
+                for k_, v_ in res.fields["_blocks"].items():
+                    src_sector = [s_ for s_ in sectors3 if pm(s_) == k_][0]
+                    if v_ != Tok(("transpose", ("blk", src_sector), ("const", repr(tuple(perm))))):
+                        bad = bad or f"block at {k_} is {v_}, not the transposed block of {src_sector}"
+    f = prog.lookup_method(fcls, "transpose")
+    ctx.check(bad is None, rid, f, f.node, "transpose mirror",
+              f"transpose re-keys blocks and sign table with the same permutation; pending signs are multiplied by the Koszul sign "
+              f"of that permutation ({n} configurations)" + ("" if bad is None else f" — witness: {bad}"))
+
+    # --- dagger: keys reversed alike, pending signs carried (even charge, no labels: no global sign)
+    bad = None
+    n = 0
+    for lazy in ((), ((0, 1, 1),), ((1, 1, 0), (0, 0, 0))):
+        x = make_array(prog, [s_ for s_ in sectors3 if sum(s_) % 2 == 0], (False, True, False), fermionic=True,
+                       phases={s_: -1 for s_ in lazy if sum(s_) % 2 == 0})
+        before = dict(x.fields["_phases"])
+        try:
+            res, _ = run("dagger", x)
+        except Raised as e:
+            bad = bad or f"dagger raised {e.what}"
+            continue
+        n += 1
+        want_p = {tuple(reversed(k_)): -1 for k_ in before}
+        want_b = {tuple(reversed(k_)) for k_ in x.fields["_blocks"]}
+        got_p = {k_: v_ for k_, v_ in res.fields["_phases"].items() if v_ == -1}
+        if set(res.fields["_blocks"]) != want_b or got_p != want_p:
+            bad = bad or f"pending={sorted(before)}: dagger gives sign table {got_p}, want {want_p}"
+        if x.fields["_phases"] != before:
+            bad = bad or "out-of-place dagger changed its operand's sign table"
+    f = prog.lookup_method(fcls, "dagger")
+    ctx.check(bad is None, rid, f, f.node, "dagger mirror",
+              f"dagger stores blocks and pending signs under the same reversed sector ({n} configurations)"
+              + ("" if bad is None else f" — witness: {bad}"))
+    ctx.minimum(rid, 3, "_map_blocks, transpose, dagger")
 
 
 def check_consume(prog, ctx):
@@ -627,6 +709,17 @@ def check_rebuild(prog, ctx):
                     lp = loops[0]
                     key = src(lp.target.elts[0]) if isinstance(lp.target, ast.Tuple) else src(lp.target)
                     it = src(lp.iter)
+                    if it.endswith("phases.items()"):
+                        # iterating the old table itself: every entry is visited; each path must store it
+                        for (conds, stmts) in leaf_paths(lp.body):
+                            if stmts and isinstance(stmts[-1], ast.Raise):
+                                continue
+                            stores = any(isinstance(s_, ast.Assign) and isinstance(s_.targets[0], ast.Subscript)
+                                         and src(s_.targets[0].value) == var for s_ in stmts)
+                            desc = " and ".join(("" if v_ else "not ") + c for c, v_ in conds) or "straight"
+                            ctx.check(stores, rid, f, lp, f"path [{desc}]"[:120],
+                                      f"path [{desc[:80]}] of the loop over the old sign table stores the entry into `{var}`")
+                        continue
                     ctx.check(it.endswith(".sectors") or it.endswith("blocks.items()") or it.endswith("blocks"), rid, f, lp, it,
                               "the rebuilding loop ranges over all stored sectors")
                     for (conds, stmts) in leaf_paths(lp.body):
